@@ -152,6 +152,29 @@ fn main() {
             if rel != abs || rel2 != abs || incwd != abs { ctx.violation("stdout_depends_on_cwd", format!("{sub} on {name}"), json!({"kind":"cwd","repo":name}), format!("abs {:?} rel {:?} rel2 {:?} cwd {:?}", abs.stdout_str(), rel.stdout_str(), rel2.stdout_str(), incwd.stdout_str())); }
         }
     }
+    // start directory that no longer exists (getcwd fails): with an absolute -C the result must not change
+    {
+        let run_gone = |args: &[String], stdin: Option<&str>, tag: &str| -> proc::Out {
+            let gone = root.join(format!("gone-{tag}"));
+            let mut sh_args = vec!["-c".to_string(), "mkdir -p \"$1\" && cd \"$1\" && rmdir \"$1\" && shift && exec \"$@\"".to_string(), "sh".to_string(), gone.display().to_string(), proc::zerv_bin().display().to_string()];
+            sh_args.extend(args.iter().cloned());
+            let mut env = proc::base_env(); env.push(("PATH".into(), "/usr/local/bin:/usr/bin:/bin".into()));
+            env.retain(|(k, _)| k != "PATH" || true);
+            proc::run(&proc::Run { program: Path::new("/bin/sh"), args: sh_args, stdin: stdin.map(|s| s.as_bytes().to_vec()), env, cwd: Some(Path::new("/")), timeout: std::time::Duration::from_secs(20) }).unwrap_or_else(|e| machinery_error(&format!("sh: {e}")))
+        };
+        let mut gone_jobs: Vec<(Vec<String>, Option<String>)> = vec![];
+        for (_, r) in &repos { let dir = r.dir.to_string_lossy().to_string(); for sub in ["version", "flow"] { for fmt in ["semver", "zerv"] { gone_jobs.push((a(&[sub, "-C", &dir, "--output-format", fmt]), None)); } } }
+        let dir0 = repos[0].1.dir.to_string_lossy().to_string();
+        gone_jobs.push((a(&["version", "-C", &dir0, "--source", "none", "--tag-version", "1.2.3"]), None));
+        gone_jobs.push((a(&["version", "-C", &dir0, "--source", "stdin"]), Some(doc.clone())));
+        gone_jobs.push((a(&["flow", "-C", &dir0, "--source", "none", "--tag-version", "1.2.3", "--bumped-branch", "main", "--distance", "1"]), None));
+        for (i, (args, stdin)) in gone_jobs.iter().enumerate() {
+            let reference = zv::run_bin(args, stdin.as_deref(), &[], Some(Path::new("/")));
+            let o = run_gone(args, stdin.as_deref(), &i.to_string());
+            s2.add("process_runs", 2); s2.inc("removed_cwd_cases");
+            if o.stdout != reference.stdout || o.status != reference.status { ctx.violation("stdout_depends_on_cwd", format!("{} [start directory removed]", args.join(" ")), json!({"kind":"cwd-gone","args":args}), format!("from /: exit {} {:?}; from a removed directory: exit {} {:?} {:?}", reference.status, truncate(&reference.stdout_str(), 100), o.status, truncate(&o.stdout_str(), 100), truncate(&o.stderr_str(), 120))); }
+        }
+    }
     for (_, r) in repos { r.remove(); }
     let _ = std::fs::remove_dir_all(&root);
     let all = st.merge(s2);
